@@ -55,16 +55,16 @@ class MidiInterface(ABC):
 class MidiRtInterface(MidiInterface):
     def __init__(self):
         self._running = False
-        self._recv_functions = set()
+        self._recv_functions = dict()  # Ordered set: registration order.
         self._input_ports = dict()
         self._output_ports = dict()
         self._threads = dict()
 
     def add_recv_func(self, func):  # override
-        self._recv_functions.add(func)
+        self._recv_functions[func] = None
 
     def remove_recv_func(self, func):  # override
-        self._recv_functions.discard(func)
+        self._recv_functions.pop(func, None)
 
     def start(self):
         if self._running:
@@ -135,7 +135,7 @@ class MidiRtInterface(MidiInterface):
 
     def _msg_dispatch(self, data, midi_in):
         def sched_func():
-            for func in self._recv_functions.copy():
+            for func in list(self._recv_functions):
                 func(data, midi_in)
 
         clk.SystemClock.sched(0, sched_func)
